@@ -255,7 +255,7 @@ Proof.
       * rewrite !andb_false_r. cbn [andb negb]. reflexivity.
 Qed.
 
-Lemma part_bad_gcomp c : part_bad c = gcomp_bad c.
+Lemma part_bad_gcomp c : part_bad c = gcomp_bad c || beqb c [64].
 Proof.
   unfold part_bad, gcomp_bad, scan_bad, DOTLOCK, LOCK_SUFFIX, DOT, AT, LBRACE, BSLASH.
   change (0 =? 46) with false. change (0 =? 64) with false. cbn [andb orb].
@@ -264,11 +264,25 @@ Proof.
     apply existsb_ext'. intros x. apply N.eqb_sym. }
   rewrite E.
   destruct (has_prefix [46] c), (contains [46; 46] c), (existsb is_ctrl c), (contains_any rule_chars c),
-    (contains [64; 123] c), (contains [92] c), (has_suffix [46; 108; 111; 99; 107] c); reflexivity.
+    (contains [64; 123] c), (contains [92] c), (has_suffix [46; 108; 111; 99; 107] c), (beqb c [64]); reflexivity.
 Qed.
 
-Lemma go_ok_gcomp c : go_ok c = gcomp_ok c.
-Proof. unfold go_ok, gcomp_ok. now rewrite part_bad_gcomp. Qed.
+(* no component is the single character '@' *)
+Definition no_at_component (s : bytes) : bool :=
+  forallb (fun c => negb (beqb c [64])) (split_on 47 s).
+
+Lemma go_ok_gcomp c : go_ok c = gcomp_ok c && negb (beqb c [64]).
+Proof.
+  unfold go_ok, gcomp_ok. rewrite part_bad_gcomp.
+  destruct (beqb c []), (gcomp_bad c), (beqb c [64]); reflexivity.
+Qed.
+
+Lemma forallb_andb {A} (f g : A -> bool) l :
+  forallb (fun x => f x && g x) l = forallb f l && forallb g l.
+Proof.
+  induction l as [|x l IH]; [reflexivity|]. cbn. rewrite IH.
+  destruct (f x), (g x), (forallb f l), (forallb g l); reflexivity.
+Qed.
 
 Lemma hd_split_dash t : has_prefix [45] (hd [] (split_on 47 t)) = has_prefix [45] t.
 Proof.
@@ -363,9 +377,10 @@ Qed.
 Definition git_valid (s : bytes) : bool :=
   match git_check s with Valid => true | _ => false end.
 
-Lemma validate_agrees s :
+(* the exact relation between the code as it is and git: one extra rule *)
+Lemma validate_exact s :
   no_nul s = true -> s <> HEADname ->
-  git_check s <> OutOfFuel /\ validate s = git_valid s && dash_rule s.
+  git_check s <> OutOfFuel /\ validate s = git_valid s && dash_rule s && no_at_component s.
 Proof.
   intros Hn Hh. unfold git_valid, git_check.
   rewrite comp_loop_spec by (try lia; assumption). cbv zeta.
@@ -374,14 +389,17 @@ Proof.
   rewrite <- Es in *. assert (Hs : s <> []) by (rewrite Es; discriminate). clear Es.
   assert (EV : validate s =
     negb (last s 0 =? 46) && negb (List.length (split_on 47 s) <? 2)%nat
-    && forallb gcomp_ok (split_on 47 s) && dash_rule s).
+    && forallb gcomp_ok (split_on 47 s) && dash_rule s && no_at_component s).
   { unfold validate. destruct s as [|x y]; [contradiction|].
     apply beqb_false in Hh. rewrite Hh. rewrite has_suffix_dot.
     destruct (last (x :: y) 0 =? 46); [reflexivity|]. unfold SLASH. cbn [negb andb].
     destruct (List.length (split_on 47 (x :: y)) <? 2)%nat eqn:EL; [reflexivity|]. cbn [negb andb].
     rewrite parts_ok_spec. cbn [Nat.leb Nat.sub]. rewrite andb_true_r.
     rewrite dash_equiv, negb_involutive.
-    f_equal. apply forallb_ext'. intros; apply go_ok_gcomp. }
+    rewrite (forallb_ext' go_ok (fun c => gcomp_ok c && negb (beqb c [64]))) by apply go_ok_gcomp.
+    rewrite forallb_andb. unfold no_at_component.
+    destruct (forallb gcomp_ok (split_on 47 (x :: y))), (dash_rule (x :: y)),
+      (forallb (fun c => negb (beqb c [64])) (split_on 47 (x :: y))); reflexivity. }
   rewrite EV, last_split. cbn [Nat.add].
   destruct (beqb s [64]) eqn:EA.
   - apply beqb_eq in EA. subst s. split; [discriminate|reflexivity].
@@ -389,6 +407,20 @@ Proof.
     destruct (last s 0 =? 46); [split; [discriminate|reflexivity]|].
     destruct (List.length (split_on 47 s) <? 2)%nat; split; try discriminate; reflexivity.
 Qed.
+
+Lemma validate_agrees_partial s :
+  no_nul s = true -> s <> HEADname -> no_at_component s = true ->
+  git_check s <> OutOfFuel /\ validate s = git_valid s && dash_rule s.
+Proof.
+  intros Hn Hh Ha. destruct (validate_exact s Hn Hh) as [Hf He]. split; [assumption|].
+  now rewrite He, Ha, andb_true_r.
+Qed.
+
+(* the full statement fails on the code as it is *)
+Definition at_witness : bytes := [114;101;102;115;47;104;101;97;100;115;47;64].   (* refs/heads/@ *)
+Lemma validate_agrees_refuted :
+  exists s, no_nul s = true /\ s <> HEADname /\ validate s <> (git_valid s && dash_rule s).
+Proof. exists at_witness. split; [reflexivity|]. split; [discriminate|]. vm_compute. discriminate. Qed.
 
 (* names with a NUL byte are always refused by go-git (rule 4) *)
 Lemma in_split c s : In c s -> c <> 47 -> exists p, In p (split_on 47 s) /\ In c p.
